@@ -114,6 +114,14 @@ def run(chk):
                 directed.append((files, scripts, {"files": mine, "scripts": scripts if ssplit else [],
                                                   "imports": [{"files": theirs, "scripts": [] if ssplit else scripts}]}))
         directed.append((files, scripts, {"files": [], "scripts": [], "imports": [{"files": files, "scripts": scripts}]}))
+    # a path present in both groups: importing = adding the imported files afterwards, so the imported version is the one registered (round 9)
+    tmpl2 = ["lib/t", '<template name="t">second {{b}}</template>']
+    user = ["page/user", '<import src="/lib/t"/><template is="t" data="{{a,b}}"/><wxs module="e" src="/s0"/>{{e.x}}']
+    for files, scripts, mine, msc, theirs, tsc in (
+            ([tmpl, user, tmpl2], [["s0", "exports.x=0"], ["s0", "exports.x=1"]], [tmpl, user], [["s0", "exports.x=0"]], [tmpl2], [["s0", "exports.x=1"]]),
+            ([tmpl, user, tmpl2], [["s0", "exports.x=0"]], [tmpl, user], [["s0", "exports.x=0"]], [tmpl2], []),
+            ([user, tmpl, tmpl2], [["s0", "exports.x=0"], ["s0", "exports.x=1"]], [user, tmpl], [["s0", "exports.x=0"]], [tmpl2], [["s0", "exports.x=1"]])):
+        directed.append((files, scripts, {"files": mine, "scripts": msc, "imports": [{"files": theirs, "scripts": tsc}]}))
     dref = {}
     for files, scripts, v in directed:
         key = json.dumps([files, scripts])
